@@ -1,9 +1,9 @@
 //! Sanitizer lanes: small, deterministic, in-process workloads meant to be
 //! executed under an instrumented runtime (Miri, valgrind memcheck) where the
 //! runtime itself is the oracle for memory errors / undefined behaviour, in
-//! addition to the functional oracles below. No threads, no subprocesses.
+//! addition to the functional oracles below. No subprocesses; threads only in `concurrent`.
 //!
-//!   pvh lane <roundtrip|roundtrip-slpp|hostile|truncate> <shard> <nshards> [c]
+//!   pvh lane <roundtrip|roundtrip-slpp|hostile|truncate|concurrent> <shard> <nshards> [c]
 //! `c` = also use LZ4/ZSTD (not possible under Miri: C FFI).
 
 use crate::common::{self, Comp, Fail};
@@ -196,6 +196,55 @@ pub fn main(name: &str, shard: usize, nshards: usize, compress: bool) -> i32 {
 								}
 							}
 						}
+					}
+				}
+			}
+		}
+		"concurrent" => {
+			// Three threads work on different tiny games at once: under Miri the data-race detector
+			// and the borrow model watch every access of any state the library (or arrow2) shares
+			// between calls, whatever the interleaving happens to produce; the shard number seeds
+			// Miri's scheduler (-Zmiri-seed), so every shard is another schedule.
+			let kinds = [(shard * 2) % 8, (shard * 2 + 1) % 8];
+			for k in kinds {
+				let inputs: Vec<(String, Vec<u8>)> = crate::stress::games(0x1A4E + 3, k, 3, false).into_iter().filter(|(_, b)| crate::model::parse(b).map_or(false, |m| slpp_writable(m.v(), view::occupied_chars(&m.start).iter().filter(|c| !c.1).count()))).collect();
+				if inputs.len() < 2 {
+					continue;
+				}
+				let results = crate::stress::run(inputs, move |t, (d, b)| {
+					let mut o = crate::stress::Outcome::default();
+					for round in 0..2 {
+						let Ok(mut g) = common::slp_read(&b, false, t % 2 == 0) else {
+							o.problems.push(format!("{}: read failed", d));
+							break;
+						};
+						let Ok(g2) = common::slp_read(&b, false, false) else { break };
+						let (v, p) = (g.start.slippi.version, common::ports_of(&g.start));
+						let arr = g2.frames.into_struct_array(v, &p);
+						g.frames = peppi::frame::immutable::Frame::from_struct_array(arr, v);
+						match common::slp_write(&g) {
+							Ok(w) if w == b => {}
+							_ => o.problems.push(format!("{}: export/import round {} under concurrency differs", d, round)),
+						}
+						o.done += 1;
+						if round == 0 {
+							match common::slpp_write(g, Comp::None).and_then(|a| common::slpp_read(&a, false)).and_then(|g3| common::slp_write(&g3)) {
+								Ok(w) if w == b => {}
+								Ok(_) => o.problems.push(format!("{}: .slpp trip under concurrency differs", d)),
+								Err(f) => o.problems.push(format!("{}: .slpp trip under concurrency: {}", d, f.text())),
+							}
+							o.done += 1;
+						}
+					}
+					o
+				});
+				for r in results {
+					match r {
+						Ok(o) => {
+							evals += o.done;
+							bad.extend(o.problems);
+						}
+						Err(()) => bad.push("a thread of the concurrent lane panicked".to_string()),
 					}
 				}
 			}
